@@ -182,13 +182,16 @@ def generate (inp : Input) : IR :=
              | none, some last => [Arm.diag last]
              | _, _ => []) ++ [Arm.catchAll] }
 
+/-- does the diagnostics statement generated for this element report a mismatch: wildcards get no
+    statement at all, every other element is re-checked against its argument -/
+def elemReports : Elem → V → Bool
+  | .pat .wild, _ => false
+  | e, v => !elemAccepts e v
+
 /-- positions reported by the diagnostics statements of an alternative: every non-wildcard element
     that rejects its argument -/
 def diagPositions : List Elem → List V → Nat → List Nat
-  | e :: es, v :: vs, i =>
-    (match e with
-     | .pat .wild => []
-     | e => if elemAccepts e v then [] else [i]) ++ diagPositions es vs (i + 1)
+  | e :: es, v :: vs, i => (if elemReports e v then [i] else []) ++ diagPositions es vs (i + 1)
   | _, _, _ => []
 
 /-- Rust semantics of the generated `match`: arms are tried in order -/
